@@ -239,7 +239,9 @@ func faults(r *ev.Run) {
 						// show every accepted, valid, backed hardware certificate (unless the faulted step was a removal)
 						if kind == wire.Failure || kind == wire.Garbage || kind == wire.WrongType {
 							name := p.steps[fs].name
-							if name == "remove-all" || name[:3] == "rem" || name == "lock" || name == "unlock" {
+							// (a faulted unlock legitimately leaves the shim locked; a faulted LOCK must leave it unlocked — the
+							// underlying agent never took the passphrase — so its hardware certificates are still reachable)
+							if name == "remove-all" || name[:3] == "rem" || name == "unlock" {
 								return
 							}
 							ag.SetPlan(nil)
